@@ -28,6 +28,7 @@ type c7sb struct {
 	Group   string
 	Crontab string
 	Kube    bool
+	Allow   bool // allowFailure: tasks of bindings with different values are never merged (stop rule of the operator)
 }
 
 func TestC07Sys(t *testing.T) {
@@ -38,6 +39,7 @@ func TestC07Sys(t *testing.T) {
 		rng := c.Rng
 		hs := vlib.NewHookSet(c.Dir, "hooks")
 		Q := "qc"
+		failA := c.Index%4 == 2
 		var binds []c7sb
 		cronN := 0
 		for _, hook := range []string{"A", "B"} {
@@ -50,6 +52,10 @@ func TestC07Sys(t *testing.T) {
 				d := m{"name": b.Name, "crontab": b.Crontab, "queue": Q}
 				if b.Group != "" {
 					d["group"] = b.Group
+				}
+				if !failA && rng.IntN(3) == 0 {
+					b.Allow = true
+					d["allowFailure"] = true
 				}
 				sch = append(sch, d)
 				binds = append(binds, b)
@@ -87,7 +93,6 @@ func TestC07Sys(t *testing.T) {
 		}
 		concurrent := c.Index%2 == 1
 		// every fourth case: hook A's first execution fails; the retry must receive the same (combined) contexts
-		failA := c.Index%4 == 2
 		if failA {
 			hs.Plan("A", 0, vhk.Directive{Exit: 1})
 		}
@@ -164,8 +169,9 @@ func TestC07Sys(t *testing.T) {
 		}
 		// reference simulation
 		type rtask struct {
-			Hook string
-			Ctx  []c7ctx
+			Hook  string
+			Allow bool
+			Ctx   []c7ctx
 		}
 		mk := func(l ltask) rtask {
 			lbl := l.B.Name + "/Schedule"
@@ -175,7 +181,7 @@ func TestC07Sys(t *testing.T) {
 			if l.B.Group != "" {
 				lbl = l.B.Name + "/Group/" + l.B.Group
 			}
-			return rtask{Hook: l.B.Hook, Ctx: []c7ctx{{Label: lbl, Group: l.B.Group}}}
+			return rtask{Hook: l.B.Hook, Allow: l.B.Allow, Ctx: []c7ctx{{Label: lbl, Group: l.B.Group}}}
 		}
 		var queue []rtask
 		for _, l := range layout {
@@ -186,7 +192,7 @@ func TestC07Sys(t *testing.T) {
 		for len(queue) > 0 {
 			head := queue[0]
 			k := 1
-			for k < len(queue) && queue[k].Hook == head.Hook {
+			for k < len(queue) && queue[k].Hook == head.Hook && queue[k].Allow == head.Allow {
 				k++
 			}
 			var all []c7ctx
@@ -227,7 +233,7 @@ func TestC07Sys(t *testing.T) {
 		}
 		var ld []string
 		for _, l := range layout {
-			ld = append(ld, mk(l).Hook+":"+mk(l).Ctx[0].Label)
+			ld = append(ld, fmt.Sprintf("%s:%s(allowFailure=%v)", mk(l).Hook, mk(l).Ctx[0].Label, l.B.Allow))
 		}
 		var lateD []string
 		for _, l := range late {
